@@ -11,8 +11,8 @@
 From Coq Require Import List NArith ZArith Bool Sorted String.
 Import ListNotations.
 From TV Require Import Lib.Obs C06.Model C09.Model C09.Url C09.Redirect C09.Run
-  C09.ProofsMachineA C09.ProofsMachineB C09.ProofsMachineC C09.ProofsMachineD C09.ProofsMachineE C09.ProofsMachineF
-  C09.ProofsHeaders C09.ProofsRedirect C09.ProofsRedirectTop C09.ProofsResplit C09.ProofsRun.
+  C09.ProofsMachineA C09.ProofsMachineB C09.ProofsMachineC C09.ProofsMachineD C09.ProofsMachineF C09.ProofsMachineE
+  C09.ProofsHeaders C09.ProofsRedirect C09.ProofsRedirectTop C09.ProofsResplit C09.ProofsStuck C09.ProofsRun C09.ProofsCheckRedir.
 
 (* ===================== Part 1: admission and completion ===================== *)
 
@@ -125,7 +125,11 @@ Theorem C09_progress : forall m es s L, exec es (init m) = (s, L) ->
        exists s' l y, step (ERespond a code hasloc) s = (s', l) /\
          nth_error (s_atts s') (List.length (s_atts s)) = Some (mkAtt f true (redirected_spec sp) y) /\
          holds (mkAtt f true (redirected_spec sp) y) = true /\
-         (forall g o, ~ In (LDone g o) l /\ ~ In (LLost g o) l)).
+         (forall g o, ~ In (LDone g o) l /\ ~ In (LLost g o) l)) /\
+    (forall rel t, x = AConn true rel t POpen ->
+       exists s' l, step (EMalformed a) s = (s', l) /\ In (deliver hop f OClosedMalformed) l) /\
+    (forall rel t, x = AConn true rel t POpen ->
+       exists s' l, step (EBadFraming a) s = (s', l) /\ In (deliver hop f OClosedCallback) l).
 Proof. exact machine_progress. Qed.
 Print Assumptions C09_progress.
 
@@ -209,6 +213,14 @@ Theorem C09_redirect_cross_origin_strips : forall orig r h code joined r' uo un,
 Proof. exact redirect_cross_origin_strips. Qed.
 Print Assumptions C09_redirect_cross_origin_strips.
 
+(* finish() cannot fail AFTER it has cleared final_callback and released the slot (the only raise
+   site there is fetch()'s HTTPHeaders(request.headers) copy): otherwise nobody would complete the
+   fetch.  Holds for every header object, however it was built (dict or add()). *)
+Theorem C09_redirect_never_stuck : forall orig r h code joined,
+  redirect_request orig r h code joined <> FStuck.
+Proof. exact redirect_never_stuck. Qed.
+Print Assumptions C09_redirect_never_stuck.
+
 (* the same, judged on the URL the follow-up request actually carries *)
 Theorem C09_redirect_strips_by_new_url : forall orig r h code joined r' uo u',
   redirect_request orig r h code joined = FRedirect r' ->
@@ -236,6 +248,12 @@ Theorem C09_fetch_chain_clean : forall rc r uo,
   Forall (sent_clean uo) (fst (chain (rc_ver rc) (rc_url rc) r (rc_script rc))).
 Proof. exact fetch_chain_clean. Qed.
 Print Assumptions C09_fetch_chain_clean.
+
+(* the model satisfies the checker that ./check applies to the implementation's observable, on
+   EVERY input: schedules and redirect scenarios *)
+Theorem C09_model_passes_checker : forall c, check_case c (run_case c) = true.
+Proof. intros [m es|rc]; [exact (check_sched_sound m es)|exact (check_redir_sound rc)]. Qed.
+Print Assumptions C09_model_passes_checker.
 
 (* URL credentials, at full strength: when the Location-derived URL has a non-empty netloc, the
    URL the follow-up carries RE-PARSES to a netloc without userinfo ... *)
